@@ -37,7 +37,9 @@ def generate(rng, repo_root, opts=None):
     obj = {"cls": cls, "nx": nx, "pf": world.draw_pf(rng, fs), "pi": fs["p_i"], "fluid": 0}
     if cls == "IdealReservoir" and rng.random() < 0.3:
         obj["fluid"] = None
-    g = world.draw_grid(rng, lattice=True, nmax=60)
+    g = world.draw_grid(rng, lattice=True, nmax=60,
+                        families=world.GRID_FAMILIES + ("integer",) if kind in ("shift", "interp") else
+                        tuple(f for f in world.GRID_FAMILIES if f != "integer"))
     scn = {"property": ID, "kind": kind, "fluids": [fs], "object": obj, "grid": g}
     n = len(g["t"])
     # 0-2 rejected calls first (only meaningful for the protocol clauses)
@@ -88,8 +90,12 @@ def generate(rng, repo_root, opts=None):
             scn["grid_shift"] = float(rng.choice([1, 1000, 2 ** 12]))
         else:
             scn["grid_shift"] = 0.0
-        if cls == "SinglePhaseReservoir" and rng.random() < 0.3:
-            scn["sched"] = world.draw_schedule(rng, fs, obj["pf"], n)
+        if cls == "SinglePhaseReservoir" and rng.random() < 0.5:
+            # schedules with shut-in / build-up make recovery non-monotone: fill values and read-back are then
+            # distinguishable from "min/max of the curve"
+            scn["sched"] = world.draw_schedule(rng, fs, obj["pf"], n, kind=rng.choice(
+                ["buildup", "buildup", "shutin", "random", "rise", "step_down", None]))
+        scn["interp_first"] = rng.random() < 0.4   # an interpolator is also built BEFORE the recovery calls
     return scn
 
 
@@ -182,6 +188,7 @@ def execute(ns, scn):
     out = Result()
     kind = scn["kind"]
     t = np.array(scn["grid"]["t"], dtype=float)
+    t_native = world.grid_array(scn["grid"])   # int64 for the integer family
     n = len(t)
     o = scn["object"]
     cls = o["cls"]
@@ -198,7 +205,13 @@ def execute(ns, scn):
         r1, r2 = _fresh(ns, scn), _fresh(ns, scn)
         if not _apply_pre(out, r2, scn, t2):
             return out
-        ok1, _, e1 = _sim(out, r1, t.copy(), None if sched is None else sched.copy())
+        # "unchanged to rounding level": on the lattice the library's results are bit-identical today; the
+        # tolerance still allows for a formulation that forms t/dx^2 before differencing (rounding amplified
+        # by (|c|+max|t|)/min dt) - any defect that lets an absolute time in is orders of magnitude larger
+        dpos = np.diff(t)
+        dmin = float(np.min(dpos[dpos > 0])) if np.any(dpos > 0) else 1.0
+        tol_shift = max(1e-10, 64 * np.finfo(float).eps * (abs(c) + float(np.max(np.abs(t)))) / dmin)
+        ok1, _, e1 = _sim(out, r1, t_native.copy(), None if sched is None else sched.copy())
         ok2, _, e2 = _sim(out, r2, t2.copy(), None if sched is None else sched.copy())
         out.log.append(("shift", c, ok1, ok2, e1, e2))
         if ok1 != ok2:
@@ -207,7 +220,7 @@ def execute(ns, scn):
         if not ok1:
             out.probe("shift_world_rejected")
             return out
-        good, d = _close(r1.pseudopressure, r2.pseudopressure, 1e-10)
+        good, d = _close(r1.pseudopressure, r2.pseudopressure, tol_shift)
         out.log.append(("pp", _d(r1.pseudopressure), _d(r2.pseudopressure)))
         if not good:
             out.violate("1-shift", "pseudopressure", {"rel_diff": d, "shift": c, "cls": cls})
@@ -222,7 +235,7 @@ def execute(ns, scn):
                 out.violate("1-shift", "recovery-one-raises", {"density": dens, "unshifted": x1, "shifted": x2})
                 return out
             if a1:
-                good, d = _close(v1, v2, 1e-10)
+                good, d = _close(v1, v2, tol_shift)
                 if not good:
                     out.violate("1-shift", "recovery" + ("-density" if dens else ""), {"rel_diff": d, "shift": c, "cls": cls})
                     return out
@@ -243,7 +256,7 @@ def execute(ns, scn):
                     out.violate("1-shift", "interpolator-eval-one-raises", {"unshifted": y1, "shifted": y2, "shift": c})
                     return out
                 if b1:
-                    good, d = _close(v1, v2, 1e-9)
+                    good, d = _close(v1, v2, 10 * tol_shift)
                     if not good:
                         out.violate("1-shift", "interpolator", {"rel_diff": d, "shift": c, "cls": cls})
                         return out
@@ -340,6 +353,8 @@ def execute(ns, scn):
     if kind == "interp":
         res = _fresh(ns, scn)
         t = t + float(scn.get("grid_shift", 0.0))
+        if scn["grid"].get("dtype") == "int64" and float(scn.get("grid_shift", 0.0)) == float(int(scn.get("grid_shift", 0.0))):
+            t = np.array([int(round(v)) for v in t], dtype=np.int64)
         if not _apply_pre(out, res, scn, t):
             return out
         ok, _, e = _sim(out, res, t.copy(), sched)
@@ -352,6 +367,9 @@ def execute(ns, scn):
             modes = ["flux" for _ in modes]
         mode = "+".join(modes) or "none"
         r = None
+        if scn.get("interp_first"):
+            okf, _, ef = _try(lambda: res.recovery_factor_interpolator())
+            out.log.append(("interp_first", okf, ef))
         for m in modes:
             okr, r, er = _try(lambda m=m: res.recovery_factor(density=(m == "density")))
             out.log.append(("rf", m, okr, er, _d(r)))
@@ -516,6 +534,10 @@ def shrink_candidates(scn):
             c["reads"] = [scn["reads"][i]]
             yield c
     if scn["kind"] == "interp":
+        if scn.get("interp_first"):
+            c = copy.deepcopy(scn)
+            c["interp_first"] = False
+            yield c
         ms = scn.get("modes", [])
         for i in range(len(ms)):
             c = copy.deepcopy(scn)
